@@ -204,6 +204,20 @@ def check(run, cases=None):
                 ij = np.unravel_index(int(np.argmax(np.abs(M - exact))), M.shape)
                 run.violation(key, '%s: derivative entry %s along the manifold is %r, exact %r (dev %.3g > %.3g) | case %r' % (
                     name, ij, float(M[ij]), float(exact[ij]), dv, TOL * 10 * S, c), dict(case=c, exact=exact.tolist(), code=M.tolist()))
+        # second pass in REVERSE order on the same operand objects: each method is a function of its operands, so it returns the same bits again
+        # (a method that wrote into an operand makes a later call with that operand differentiate something else)
+        for name, fn, chain, exact, flp in reversed(calls):
+            if name not in got:
+                continue
+            try:
+                J2 = np.asarray(fn(), dtype=float)
+            except Exception as e:  # noqa
+                run.violation(dict(k=k, method=name, part='second-call'), 'exception %r in the second call of %s | case %r' % (e, name, c), dict(case=c))
+                continue
+            if J2.shape != got[name].shape or not np.array_equal(J2, got[name], equal_nan=True):
+                run.violation(dict(k=k, method=name, part='second-call'), '%s returns another matrix when called again on the same operands after the other Jacobian methods '
+                              '(max change %.3g): the later value is not the derivative at these operands | case %r' % (
+                                  name, float(np.max(np.abs(J2 - got[name]))) if J2.shape == got[name].shape else float('inf'), c), dict(case=c))
         if k in ('SE2', 'SE3') and run.replayed % 2 == 0:
             # d(a (+) b)/da and d(a (+) point)/da depend on the ROTATION of a and on b only: moving a astronomically far away (4e12) must not
             # change them (a formula that recovers the lever arm as a difference of positions would lose it there)
